@@ -91,4 +91,27 @@ CONTRACTS = [
         },
         canary={"never_completes": "False"},
     ),
+    # ---- public sorted views (C03 summary, C11 determinism, C18 text summary) --------------------------------------
+] + [
+    Contract(
+        R + name,
+        props=["C03", "C11", "C18"],
+        requires={"evaluated": "self._evaluated is True"},
+        ensures={
+            "same_tables_as_the_graph_roles": f"forall(lambda t: (t in result) == (t in self._sql_holder.{name}))",
+            "each_once": f"len(result) == len(self._sql_holder.{name})",
+            "sorted_by_printed_name": f"result == sorted(self._sql_holder.{name}, key=lambda t: str(t))",
+        },
+        modifies=[],
+        at_calls=False,
+        canary={"always_empty": "len(result) == 0"},
+    )
+    for name in ("source_tables", "target_tables", "intermediate_tables")
+] + [
+    Contract(
+        "sqllineage.runner.lazy_method",
+        props=["C11", "C12"],
+        at_calls=False,
+        notes="decorator: executed from source by the engine wherever a decorated accessor is called",
+    ),
 ]
